@@ -398,12 +398,16 @@ class FSM:
 
     def is_crew_done(self):
         # pylint: disable=protected-access
-        while dawgie.pl.farm._busy and self.waiting_on_crew():
+        while (
+            dawgie.pl.farm._busy or not self.is_pipeline_active()
+        ) and self.waiting_on_crew():
             time.sleep(0.2)
         return
 
     def is_doing_done(self):
-        while dawgie.pl.schedule.view_doing() and self.waiting_on_doing():
+        while (
+            dawgie.pl.schedule.view_doing() or not self.is_pipeline_active()
+        ) and self.waiting_on_doing():
             time.sleep(0.2)
         return
 
@@ -411,7 +415,9 @@ class FSM:
         return self.state == 'running' and self.transitioning == Status.active
 
     def is_todo_done(self):
-        while dawgie.pl.schedule.que and self.waiting_on_todo():
+        while (
+            dawgie.pl.schedule.que or not self.is_pipeline_active()
+        ) and self.waiting_on_todo():
             time.sleep(0.2)
         return
 
@@ -555,7 +561,10 @@ class FSM:
         def done(*_args, **_kwds):
             self.crew_thread = None
             if self.waiting_on_crew():
-                self.update_trigger()
+                if self.is_pipeline_active() and not dawgie.pl.farm._busy:
+                    self.update_trigger()
+                else:
+                    self.wait_for_crew()
                 pass
             return
 
@@ -581,7 +590,10 @@ class FSM:
         def done(*_args, **_kwds):
             self.doing_thread = None
             if self.waiting_on_doing():
-                self.update_trigger()
+                if self.is_pipeline_active() and not dawgie.pl.schedule.view_doing():
+                    self.update_trigger()
+                else:
+                    self.wait_for_doing()
                 pass
             return
 
@@ -614,7 +626,10 @@ class FSM:
         def done(*_args, **_kwds):
             self.todo_thread = None
             if self.waiting_on_todo():
-                self.update_trigger()
+                if self.is_pipeline_active() and not dawgie.pl.schedule.que:
+                    self.update_trigger()
+                else:
+                    self.wait_for_todo()
                 pass
             return
 
